@@ -173,6 +173,12 @@ def ref_decode_packet(enc):
         return ('ok', MESSAGE, [raw], True)
     if c in '0123456789':
         rest = enc[1:]
+        try:
+            json.loads(rest)
+        except RecursionError:
+            return ('open', 'JSON nesting deeper than the interpreter allows')
+        except ValueError:
+            pass
         allowed = ref_decode_text_payload(rest)
         if text_has_big_int(rest) and rest not in allowed:
             allowed = [rest] + allowed      # the documented 100-digit guard may refuse it
